@@ -597,12 +597,14 @@ def _prepare_czt_basis(N, M, K, shift, alpha, dtype, norm=False):
     # the origin is sample n//2 in both domains, so output index 0 minus input index 0
     # is -(M//2) + N//2; (N - M)//2 differs from that when N is even and M is odd
     start = -(N//2 - M//2) + shift
-    j = np.arange(-start, -start+M, dtype=dtype)  # do not need a "-1" because arange is naturally end-exclusive
+    # integer ranges offset by the (possibly fractional) start: np.arange with float end
+    # points can return one element too many
+    j = np.arange(M, dtype=dtype) - start
     # j is an index variable
     h[:M] = np.pi * (j * j)
 
     # check for off-by-1 bug
-    j = np.arange(-start-N+1, -start, dtype=dtype)
+    j = np.arange(-N+1, 0, dtype=dtype) - start
     h[K-N+1:K] = np.pi * (j * j)
 
     # order matters, scalar * scalar * array avoids operations on whole array over and over again
